@@ -34,6 +34,12 @@ fn permuted_fit<T: Sc>(case: &C07Case, out: &mut Outcome) -> Result<(), Fail> {
     if fam.s() < 2 || fam.f32 {
         return Ok(());
     }
+    // "up to the accuracy of the optimizer" presupposes a well-determined minimiser: the same
+    // identifiability premise as C05 (oracle-side, from the generating parameters only)
+    if !fam.sigma.is_empty() && !fam.predicted_alpha_rel_sd().is_some_and(|sd| sd.iter().all(|v| *v <= super::c05::PREMISE_REL_SD)) {
+        out.class("permuted-fit:outside-identifiability-premise");
+        return Ok(());
+    }
     let perm = perm_of(&case.perm_keys, fam.s());
     let mut fp = fam.clone();
     fp.c_true = perm.iter().map(|&i| fam.c_true[i].clone()).collect();
